@@ -25,12 +25,16 @@ ASSUMPTIONS = ["well-formedness is by construction: >=1 block, no empty block, j
                "stack-effect validity is not required (the code is read, never executed)",
                "on <=3.9 a None line cannot be expressed by the format: only termination without exception is required for it"]
 REQUIRED_CLASSES = ["wide_jump", "table_gt256", "merge_prone_constants", "line_delta_gt127", "none_lines", "edit_to_code_raised",
-                    "edit_to_code_returned"]
-EDITS = ["drop_instruction", "drop_additional_args", "clear_override", "change_override", "duplicate_instruction", "lone_override"]
+                    "edit_to_code_returned", "posonly_refused_on_37", "edit_colliding_overrides"]
+EDITS = ["drop_instruction", "drop_additional_args", "clear_override", "change_override", "duplicate_instruction", "lone_override",
+         "colliding_overrides"]
 
 
 def versions_for(case):
-    mv = case.get("spec", case.get("case", {})).get("min_version", 7) if isinstance(case, dict) else 7
+    if "spec" in case:
+        # specs with positional-only parameters also go to 3.7: there to_code() must refuse them
+        return list(VERSIONS)
+    mv = case.get("case", {}).get("min_version", 7) if isinstance(case, dict) else 7
     return [v for v in VERSIONS if int(v.split(".")[1]) >= mv]
 
 
